@@ -45,6 +45,48 @@ def drop_useless_kills(prog):
     return sk.simplify(f(prog), PARAM_ATOMS)
 
 
+def slice_ownership(prog):
+    """Keep only what can influence a check of the ownership analysis.
+    (1) names: R = names written in place, closed backwards under `bindAlias v us` (v in R => us in R);
+        a binding of a name outside R is never consulted by any check and is dropped.
+    (2) may-raise points outside any try block are dropped: the property is an invariant checked at every
+        in-place write, an exception only cuts an execution short, and abstract exception states are consulted
+        only by `except`/`finally` blocks (inside which calls are kept)."""
+    R = {a[1] for a in sk.atoms(prog) if a[0] == "mutate"}
+    edges = [(a[1], a[2]) for a in sk.atoms(prog) if a[0] == "bindAlias"]
+    changed = True
+    while changed:
+        changed = False
+        for v, us in edges:
+            if v in R:
+                for u in us:
+                    if u not in R:
+                        R.add(u)
+                        changed = True
+
+    def f(p, in_try):
+        t = p[0]
+        if t == "atom":
+            a = p[1]
+            if a[0] in ("bindAlias", "bindFresh") and a[1] not in R:
+                return ("skip",)
+            if a[0] == "bindAlias":
+                return ("atom", ("bindAlias", a[1], [u for u in a[2] if u in R]))
+            return p
+        if t in ("call", "raise_"):
+            return p if in_try else (("skip",) if t == "call" else p)
+        if t == "seq":
+            return ("seq", f(p[1], in_try), f(p[2], in_try))
+        if t == "ite":
+            return ("ite", p[1], f(p[2], in_try), f(p[3], in_try))
+        if t in ("loop", "scope"):
+            return (t, f(p[1], in_try))
+        if t in ("tryFinally", "tryExcept"):
+            return (t, f(p[1], True), f(p[2], in_try))
+        return p
+    return sk.simplify(f(prog, False), OWN_ATOMS), R
+
+
 def returns_self(uni, cname, mname, seen=()):
     """every `return` of the method is `return self`, or returns the result of a method of the same
     hierarchy that itself returns self, or of the external parent's method of the same name (trusted)."""
@@ -175,10 +217,10 @@ def gen_c02(repo):
         for r in c["methods"]:
             loc, par, att = sk.Numbering(), sk.Numbering(), sk.Numbering()
             pp = drop_useless_kills(sk.simplify(r["prog"], PARAM_ATOMS))
-            op = sk.simplify(r["prog"], OWN_ATOMS)
+            op, relevant = slice_ownership(sk.simplify(r["prog"], OWN_ATOMS))
             ptxt = sk.render(pp, loc, par, att)
             otxt = sk.render(op, loc, par, att)
-            borrowed = [loc(b) for b in r["borrowed"]]
+            borrowed = [loc(b) for b in r["borrowed"] if b in relevant]
             ident = "m_%s_%s" % (c["class"], r["method"])
             names.append(ident)
             L.append("-- %s.%s (defined in %s); hyper-parameters %s; names %s" % (
